@@ -369,6 +369,7 @@ def check_C08(run):
             if nv <= 25:
                 run.violation("count-captures", bad, {"fen": fen, "implementation": a, "rules_captures": db.get("speccaps", ""),
                                                       "repro": f"printf 'gen\\t{fen}\\n' | .build/cargo/release/rawr_harness /dev/stdout"})
+    napre = 0
     for e, m, a, b in zip(sub, masks, impl[n:n + len(att)], model[n:n + len(att)]):
         fen = e["fen"]
         run.note_case(("att", fen, m), "attack-queries")
@@ -376,6 +377,12 @@ def check_C08(run):
             run.violation("panic", "panic in an attack query", {"fen": fen, "mask": m, "implementation": a})
             continue
         da, db = kv(a), kv(b)
+        napre += 1
+        if db.get("apre") != "1":
+            nv += 1
+            if nv <= 25:
+                run.violation("theorem-premise", "attack_pre_b (the hypothesis of C08_attack_query_premises) is false on a position of D: "
+                              "the theorem does not cover it", {"fen": fen, "model": b}, found_input=False)
         su, st = int(db["sq_us"]), int(db["sq_them"])
         board = G.parse_board(fen)
         black = fen.split(" ")[1] == "b"
@@ -402,8 +409,10 @@ def check_C08(run):
     run.cov["traces_validated_against_impl"] = len(reqs) + len(att) + len(perft)
     run.sample({"request": att[0] if att else "", "implementation": impl[n] if att else ""})
     run.sample({"request": perft[0] if perft else "", "implementation": impl[off] if perft else "", "rules_leaves": model[off] if perft else ""})
-    run.cov["explanation"] = ("PARTIAL proof (closed lemmas under 'theorems'); count/captures/is_capture/attack queries/perft of the real "
-                              "library compared with the rules specification on generated positions of D")
+    run.cov["attack_pre_b_true_on_positions"] = napre
+    run.cov["explanation"] = ("PARTIAL proof (closed lemmas under 'theorems'): the square attack query = Rules.attacked is proved for both frames "
+                              f"under attack_pre_b, evaluated (true) on all {napre} positions of this run; count/captures/is_capture/set-valued "
+                              "attack queries/perft of the real library are compared with the rules specification on generated positions of D")
 
 
 def make_requests(run, pool, frac):
